@@ -61,6 +61,11 @@ SEEDS = {  # number of scenarios (each runs schedulesPer(prop, tier) schedules):
     "C15": (1500, 60000), "C18": (10000, 400000),
 }
 
+def crash_site(c):
+    """stage, plus the library location when the dying process could name it (assertion / sanitizer abort)"""
+    m = re.search(r" at ((?:algorithms|core|containers|kernels|spacial|utils)/[\w/.]+:\d+)", c.get("what", "") or "")
+    return c["stage"] + ("@" + m.group(1) if m else "")
+
 def vkey(run, v):
     return "%s|%s|%s|%s" % (run.get("executor", "?"), run.get("ordering", "?"), v["cls"], v["site"])
 
@@ -213,7 +218,7 @@ def run_replay(flavour, scenario, timeout=120):
             except Exception: pass
         elif line.startswith("STAGE "):
             stage = line.split()[3]
-        elif line.startswith("CRASH "):
+        elif line.startswith("CRASH ") and crash is None:
             parts = line.split(None, 4)
             crash = {"stage": parts[3], "what": parts[4] if len(parts) > 4 else ""}
     if res is None and crash is None and p.returncode not in (0, 1):
@@ -231,7 +236,10 @@ def shows(prop, flavour, scenario, want):
     """Does the scenario still show the wanted violation (same class and site; for crashes same stage)?"""
     res, crash = run_replay(flavour, scenario)
     if want["cls"] in ("crash", "hang", "abort"):
-        return crash is not None and (crash["stage"] == want.get("stage") or want.get("stage") in (None, "?")), res, crash
+        if crash is None: return False, res, crash
+        if "@" in want.get("site", ""):
+            return crash_site(crash) == want["site"], res, crash
+        return (crash["stage"] == want.get("stage") or want.get("stage") in (None, "?")), res, crash
     if res is None:
         return False, res, crash
     for v in res.get("viol", []):
@@ -378,7 +386,7 @@ def main():
         # a crash needs its scenario to be attributed: regenerate it
         sc = emit_scenario(c["flavour"], prop, tier, c["seed"], c["sub"]) if c["seed"] is not None else None
         ex = sc["executor"] if sc else "?"
-        v = {"cls": "hang" if c["what"] == "hang" else "crash", "site": c["stage"], "stage": c["stage"], "detail": "process died in stage %s (%s)" % (c["stage"], c["what"]), "where": "run", "task": ""}
+        v = {"cls": "hang" if c["what"] == "hang" else "crash", "site": crash_site(c), "stage": c["stage"], "detail": "process died in stage %s (%s)" % (c["stage"], c["what"]), "where": "run", "task": ""}
         run = {"seed": c["seed"], "sub": c["sub"], "executor": ex, "ordering": sc["ordering"] if sc else "?", "flavour": c["flavour"], "scenario": sc, "hash": None}
         if belongs(prop, v, run):
             k = vkey(run, v)
